@@ -49,6 +49,13 @@ Theorem C18_thunk_tag_inv : forall ops outs st v,
   exists b, h_thunk_data (KThunk, v) (heap st) = Ok (b, heap st) /\ b_tag b = TThunk.
 Proof. exact thunk_tag_decode. Qed.
 
+(* the copy of a thunk's data made by make_unique / strong_clone / saturate (shared) / map is a fresh
+   thunk: not black-holed (no update frame refers to it), not locked *)
+Theorem C18_thunk_copy_fresh : forall sh,
+  get_state (copy_shape sh) <> Blackholed /\ get_locked (copy_shape sh) = false /\
+  copy_shape (copy_shape sh) = copy_shape sh.
+Proof. exact copy_shape_fresh. Qed.
+
 (* the increment can overflow only when max handles to the same block exist at once *)
 Theorem C18_overflow_needs_max_handles : forall mx E h a,
   inv_h E h -> h_inc mx a h = Overflow -> (mx <= N.of_nat (occ a (E ++ heap_refs h)))%N.
